@@ -334,7 +334,7 @@ def harvest(ctx, rep, f_ga, f_sh):
         n = ctx.rng.randint(4, 8)
         pop = ctx.rng.randint(8, 10)
         tour, parents, rate = ctx.rng.randint(2, 4), ctx.rng.randint(2, 4), ctx.rng.choice([0.0, 0.125, 0.5, 1.0])
-        obj = L.Objective(ctx.rng.choice(["onemax", "plateau", "weighted"]))
+        obj = L.Objective(ctx.rng.choice(["onemax", "plateau", "weighted", "const"]))      # const: every generation is a plateau
         records, shapes = [], []
         REC_NAMES = (["thefittest.utils.selections." + x for x in ("proportional_selection", "rank_selection", "tournament_selection")] +
                      [CX + x for x in CODES] + ["thefittest.utils.mutations.flip_mutation"])
@@ -362,7 +362,7 @@ def harvest(ctx, rep, f_ga, f_sh):
                     c0 = len(L.REC.calls)
                     pg, fs, fr = L.snap(opt._population_g_i), L.snap(opt._fitness_scale_i), L.snap(opt._fitness_rank_i)
                     out = orig(sn, cn, mn)
-                    records.append(dict(kind="ga", names=(str(sn), str(cn), str(mn)), pop=pg, fscale=fs, frank=fr, out=L.snap(out),
+                    records.append(dict(kind="ga", names=(str(sn), str(cn), str(mn)), pop=pg, fscale=fs, frank=fr, out=L.snap(out), fit=L.snap(opt._fitness_i),
                                         draws=list(MR.TAPE.log[start:]), unmodified=L.same(pg, opt._population_g_i),
                                         calls=list(L.REC.calls[c0:])))
                     return out
@@ -392,6 +392,18 @@ def harvest(ctx, rep, f_ga, f_sh):
                             draws=draws, out=[int(v) for v in r["out"]], seed=seed)
                 # argument-level wiring: what the optimizer handed to the configured operators (donor identity is
                 # invisible in converged binary populations, the arguments are not)
+                # the weight / rank vectors the fitness-based operators work with are the documented transforms of the current
+                # fitness: min-max scaling (ONES on a plateau, so that every individual keeps a positive weight) and average ranks
+                fit_ = np.asarray(r["fit"], dtype=np.float64)
+                lo_, hi_ = float(fit_.min()), float(fit_.max())
+                ref_scale = np.ones(len(fit_)) if lo_ == hi_ else (fit_ - lo_) / (hi_ - lo_)
+                ref_rank = np.array([1 + np.sum(fit_ < v) + (np.sum(fit_ == v) - 1) / 2 for v in fit_], dtype=np.float64)
+                if not (np.allclose(np.asarray(r["fscale"], dtype=np.float64), ref_scale, rtol=0, atol=1e-12) and np.array_equal(np.asarray(r["frank"], dtype=np.float64), ref_rank)):
+                    rep.problem("wiring", f"{kind}: the scaled-fitness / rank vectors used by the fitness-based operators are not the min-max scaling "
+                                "(ones on a plateau) / average ranks of the current fitness",
+                                dict(fn="_get_new_individ_g", optimizer=kind, names=[sn, cn, mn], seed=seed, fitness=fit_.tolist(),
+                                     fscale=np.asarray(r["fscale"]).tolist(), frank=np.asarray(r["frank"]).tolist()),
+                                "fitness-weights", True, np.asarray(r["fscale"]).tolist(), ref_scale.tolist(), "C06_new_individual")
                 calls = r.get("calls", [])
                 if len(calls) == 3:
                     selc, cxc, muc = calls
